@@ -154,9 +154,13 @@ def e2e_cases(draw):
                       for i in range(depth))
     n = draw(st.integers(2, 6))
     srcs = []
-    for _ in range(n):
+    # one case in six refers to a file above the top of the source tree
+    escape = draw(st.integers(0, 5)) == 0
+    for k in range(n):
         s = draw(relsources(allow_up=depth > 0))
         s['up'] = min(s['up'], depth)
+        if escape and k == 0:
+            s['up'] = depth + 1
         if s['ext'] != '.c':
             s['ext'] = '.cpp'
         srcs.append(s)
@@ -287,8 +291,10 @@ def expected_collision(case, uniq, rel):
 def prop_e2e(rec):
     def prop(case):
         backend = case.get('backend', 'make')
-        labs = {case['kind'], backend, 'depth={}'.format(
-            len(case['subdir'].split('/')) if case['subdir'] else 0)}
+        depth_ = len(case['subdir'].split('/')) if case['subdir'] else 0
+        labs = {case['kind'], backend, 'depth={}'.format(depth_)}
+        if any(s['up'] > depth_ for s in case['sources']):
+            labs.add('source-above-srcdir')
         if not case['intermediate_dirs']:
             labs.add('no-intermediate-dirs')
         rec.case(labs, nontrivial=(
